@@ -55,7 +55,8 @@ EvalFeed(c) ==
       last == i = Len(T.calls)
       noraise == IF c.raised # "" /\ T.mode \in {"c03", "c06"} THEN {"NoRaise"} ELSE {}
       complete == IF last /\ T.mode \in {"c03", "c06"} /\ m.p # Len(Exp) THEN {"Complete"} ELSE {}
-      just == IF T.mode = "c07" /\ \E k \in 1..Len(c.delivered) : ~Justified(T.kind, c.delivered[k], nf)
+      just == IF T.mode = "c07" /\ \E k \in 1..Len(c.delivered) :
+                      ~(Justified(T.kind, c.delivered[k], nf) /\ FixedLenOK(T.dir, c.delivered[k].pdu))
               THEN {"Justified"} ELSE {}
       (* c11: no expected frame that started after the resync allowance and is wholly fed may still be undelivered *)
       deaf == IF T.mode = "c11" /\ \E x \in (m.p + 1)..Len(Exp) :
